@@ -61,6 +61,18 @@ FamDeps(n, W, S, rules, flips, allOrders) ==
     : w \in [1..n -> W], s \in S, r \in (IF allOrders THEN Perms(n) ELSE TwoOrders(n)), rule \in rules,
       d \in UNION { DepSeqs(n, Kinds, f) : f \in flips } }
 
+\* dependency maps over a given sequence of pairs
+DepSeqsOn(PS, K) ==
+  { LET chosen == SelectSeq([i \in 1..Len(PS) |-> <<PS[i], c[i]>>], LAMBDA x: x[2] # "none")
+    IN [i \in 1..Len(chosen) |-> <<chosen[i][1][1], chosen[i][1][2], chosen[i][2]>>]
+    : c \in [1..Len(PS) -> K \cup {"none"}] }
+FamDeps4 ==
+  { Cfg("deps4", 1, [t \in 1..4 |-> PlainTask(w[t], r[t] - 1)], d, 1,
+        [k \in 1..4 |-> PlainWorker([t \in 1..4 |-> IF t = k THEN 1 ELSE 0], 1)],
+        <<>>, <<>>, <<>>, Opt(<<>>, FALSE, "TSLACK", 14))
+    : w \in {<<1, 1, 1, 1>>, <<2, 1, 1, 2>>, <<1, 2, 2, 1>>, <<2, 2, 2, 2>>}, r \in TwoOrders(4),
+      d \in DepSeqsOn(<<<<1, 2>>, <<2, 3>>, <<3, 4>>, <<1, 3>>, <<2, 4>>>>, Kinds) }
+
 \* ---- FamAlloc: contention for workers ---------------------------------------
 \* 3 independent tasks (plus optionally one FS link), 2 workers in 2 teams with
 \* skills from SK per task (incl. 0 and missing), solo flags, team targeting.
@@ -170,13 +182,28 @@ FamDag ==
         Opt(<<>>, FALSE, "TSLACK", 12))
     : w \in [1..3 -> {1, 2}], nf \in BOOLEAN, d \in {<<>>, <<<<3, 1, "FS">>>>, <<<<1, 2, "FS">>>>} }
 
+\* ---- FamWatch: a component that follows tasks handed to its constructor -------------------
+FamWatch ==
+  { Cfg("watch", 1,
+        << Task(w[1], p1, FALSE, 1, FALSE, 0, <<1>>, <<>>, 0),
+           Task(w[2], 0, FALSE, 1, FALSE, 2, <<1>>, <<1>>, 1),
+           Task(w[3], 0, au, 1, FALSE, 0, <<1>>, <<>>, 2) >>,
+        d, 1,
+        << PlainWorker(<<1, 1, 1>>, 1), PlainWorker(<<0, 1, 1>>, 2) >>,
+        << Facility(1, <<1, 1, 1>>, 1, FALSE, <<>>) >>,
+        << [cap |-> 4, inputs |-> <<>>] >>,
+        << [space |-> 1, children |-> <<>>, watch |-> wl], [space |-> 1, children |-> <<>>, watch |-> <<>>] >>,
+        Opt(al, FALSE, "TSLACK", 12))
+    : w \in [1..3 -> {1, 2}], p1 \in {0, 4}, au \in BOOLEAN, wl \in {<<1>>, <<1, 3>>, <<3>>},
+      d \in {<<>>, <<<<1, 3, "FS">>>>, <<<<2, 1, "FS">>>>}, al \in {<<>>, <<1>>} }
+
 \* ---- FamSort: inputs of the four sorting functions ---------------------------------------
 \* A sort case is a small cfg (only the lists the function looks at are populated), the
 \* function, the rule mode, the task whose name is passed (t) and the target workplace (p),
 \* plus - for task lists - the PERT / log values the task keys read.
 MiniTasks(n) == [t \in 1..n |-> PlainTask(1, t - 1)]
 SortCase(fn, mode, t, p, c, vals) == [fn |-> fn, mode |-> mode, t |-> t, p |-> p, cfg |-> c, vals |-> vals]
-NoVals == [est |-> <<>>, lst |-> <<>>, rem |-> <<>>, rc |-> <<>>, cpl |-> 0, avail |-> <<>>]
+NoVals == [est |-> <<>>, lst |-> <<>>, rem |-> <<>>, rc |-> <<>>, cpl |-> 0, avail |-> <<>>, absent |-> <<>>]
 
 SortWorkerCases(n, S1, S2, C, M) ==
   { SortCase("worker", mode, 1, p,
@@ -199,7 +226,7 @@ SortTaskCases(n, V, W) ==
                  Opt(<<>>, FALSE, mode, 5)),
              [est |-> [t \in 1..n |-> x[t][1]], lst |-> [t \in 1..n |-> x[t][2]],
               rem |-> [t \in 1..n |-> 3 - x[t][3]], rc |-> [t \in 1..n |-> x[t][2]], cpl |-> 3,
-              avail |-> <<>>])
+              avail |-> <<>>, absent |-> <<>>])
     : x \in [1..n -> V \X V \X W], mode \in TaskRules }
 
 SortWorkplaceCases(n, A, S) ==
@@ -208,8 +235,10 @@ SortWorkplaceCases(n, A, S) ==
                  [i \in 1..(2 * n) |-> Facility((i + 1) \div 2, <<x[(i + 1) \div 2][IF i % 2 = 1 THEN 2 ELSE 3]>>, 1, FALSE, <<>>)],
                  [i \in 1..n |-> [cap |-> 4, inputs |-> <<>>]], <<>>, Opt(<<>>, FALSE, "TSLACK", 5)),
              [est |-> <<>>, lst |-> <<>>, rem |-> <<>>, rc |-> <<>>, cpl |-> 0,
-              avail |-> [i \in 1..n |-> x[i][1]]])
-    : x \in [1..n -> A \X S \X S], mode \in {"FSS", "SSP"} }
+              avail |-> [i \in 1..n |-> x[i][1]], absent |-> ab])
+    \* ab: facilities whose state is ABSENCE when the function is called (the documented keys
+    \* do not depend on it)
+    : x \in [1..n -> A \X S \X S], mode \in {"FSS", "SSP"}, ab \in {<<>>, <<1>>, <<2, 3>>} }
 
 SortFamily(tier) ==
   IF tier = 1
@@ -248,12 +277,18 @@ ExtractCases(n, BA) ==
   \cup { [fn |-> "extract", cls |-> cls, logs |-> <<a, b, <<>> >>, state |-> s, times |-> t]
     : cls \in {"worker", "facility"}, a \in [1..n -> ResAlphabet], b \in [1..(n - 1) -> ResAlphabet],
       s \in {"FREE", "WORKING"}, t \in {<<>>, <<0>>, <<1>>, <<0, 1>>, <<1, 2>>, <<0, 2>>, <<n - 1>>, <<n>>} }
+\* time lists that are unsorted / not contiguous but whose ends span exactly their length
+ExtractCases2 ==
+  { [fn |-> "extract", cls |-> cls, logs |-> <<a, b, <<>> >>, state |-> s, times |-> t]
+    : cls \in {"task", "component"}, a \in [1..4 -> {"READY", "WORKING"}], b \in [1..4 -> {"READY", "WORKING"}],
+      s \in {"READY", "WORKING"}, t \in {<<1, 0, 3>>, <<0, 3, 2>>, <<3, 1>>, <<0, 2, 3>>, <<2, 0, 1, 3>>} }
 LastDateCases ==
   { [fn |-> "lastdate", time |-> tm, unit |-> u, last |-> d]
     : tm \in 0..5, u \in {1, 60, 86400}, d \in {0, 86400, 1000000} }
 ReportFamily(tier) ==
-  IF tier = 1 THEN GanttCases(4) \cup RowCases(3) \cup ExtractCases(3, {"READY", "WORKING"}) \cup LastDateCases
-  ELSE GanttCases(6) \cup RowCases(4) \cup ExtractCases(3, TaskAlphabet) \cup LastDateCases
+  IF tier = 1 THEN GanttCases(4) \cup RowCases(3) \cup ExtractCases(3, {"READY", "WORKING"}) \cup ExtractCases2
+                       \cup LastDateCases
+  ELSE GanttCases(6) \cup RowCases(4) \cup ExtractCases(3, TaskAlphabet) \cup ExtractCases2 \cup LastDateCases
 
 \* ---- FamSub: parent projects around one sub-project task (C20) -----------------------------
 \* Q = su (sub-project unit seconds) so that the configured rate pu/su and work D are integers
@@ -277,7 +312,8 @@ Family(name, tier) ==
   CASE name = "deps"  -> IF tier = 1
                          THEN FamDeps(3, {1, 2}, {1, 2}, {"TSLACK"}, {FALSE}, FALSE)
                          ELSE FamDeps(3, {1, 2, 3}, {1, 2}, {"TSLACK", "FIFO"}, {FALSE, TRUE}, TRUE)
-    [] name = "deps4" -> FamDeps(4, {1, 2}, {1}, {"TSLACK"}, {FALSE}, FALSE)
+    \* 4 tasks: every dependency map over the five pairs (1,2) (2,3) (3,4) (1,3) (2,4)
+    [] name = "deps4" -> FamDeps4
     [] name = "alloc" -> IF tier = 1
                          THEN FamAlloc({<<<<1, 2>>, <<1, 2>>, <<1>>>>}, {0, 1}, {-1, 1, 2},
                                        {<<FALSE, FALSE>>, <<TRUE, FALSE>>, <<FALSE, TRUE>>},
@@ -302,6 +338,7 @@ Family(name, tier) ==
                          ELSE FamPairs({<<1, 2, 1>>, <<2, 1, 1>>, <<1, 1, 2>>, <<2, 2, 2>>}, {<<1, 1>>, <<1, 0>>, <<0, 1>>},
                                        [1..3 -> BOOLEAN], [1..2 -> BOOLEAN], {<<>>, <<0>>, <<1>>, <<2, 1>>}, {<<>>, <<0>>, <<1>>, <<2, 1>>})
     [] name = "dag"   -> FamDag
+    [] name = "watch" -> FamWatch
     \* two dependencies between the same pair of tasks
     [] name = "deps2" -> { Cfg("deps2", 1, [t \in 1..3 |-> PlainTask(w[t], r[t] - 1)],
                                 <<<<1, 2, kk[1]>>, <<1, 2, kk[2]>>>> \o d23 \o d13, 1,
